@@ -1528,6 +1528,33 @@ func (a allocator) release(v any) {
 	}
 }
 
+// containsSliceOf reports whether the value contains a slice of the array,
+// which the update function has got as the value at a slice path. Writing
+// such a value into the array itself would change the slice, too.
+func containsSliceOf(v any, w []any) bool {
+	switch v := v.(type) {
+	case []any:
+		if cap(v) > 0 && cap(w) > 0 {
+			p, q := reflect.ValueOf(v).Pointer(), reflect.ValueOf(w).Pointer()
+			if q <= p && p < q+uintptr(cap(w))*reflect.TypeFor[any]().Size() {
+				return true
+			}
+		}
+		for _, v := range v {
+			if containsSliceOf(v, w) {
+				return true
+			}
+		}
+	case map[string]any:
+		for _, v := range v {
+			if containsSliceOf(v, w) {
+				return true
+			}
+		}
+	}
+	return false
+}
+
 func funcSetpath(v, p, n any) any {
 	// There is no need to use an allocator on a single update.
 	return setpath(v, p, n, nil)
@@ -1745,7 +1772,7 @@ func updateArraySlice(v []any, m map[string]any, path []any, n any, a allocator)
 	switch u := u.(type) {
 	case []any:
 		var w []any
-		if len(u) == end-start && a.allocated(v) {
+		if len(u) == end-start && a.allocated(v) && !containsSliceOf(u, v) {
 			w = v
 		} else {
 			w = a.makeArray(len(v)-(end-start)+len(u), 0)
